@@ -1,5 +1,5 @@
 #!/usr/bin/env python3
-"""usage: mixed_eval.py [-j N] [--out f.json]  — for every mixed commit seeded/<id> that has a benign half benign-mixed/Cxx/<id>.diff:
+"""usage: mixed_eval.py [-j N] [--out f.json] [--only REGEX]  — for every mixed commit seeded/<id> that has a benign half benign-mixed/Cxx/<id>.diff:
 runs the checks of the seed's own property on both and prints
   right   : the seed raises a violation (rule+key) its benign half does not  -> detected for the right reason
   alarm   : the benign half raises a violation                                -> false alarm on the refactoring
@@ -7,12 +7,13 @@ A seed that is only 'detected' through reports its benign half raises too is not
 import sys, os, re, json, subprocess, tempfile, shutil
 from concurrent.futures import ThreadPoolExecutor
 root = os.path.dirname(os.path.dirname(os.path.abspath(__file__)))
-jobs = 8; out = None
+jobs = 8; out = None; only_re = None
 a = sys.argv[1:]
 while a:
     x = a.pop(0)
     if x == '-j': jobs = int(a.pop(0))
     elif x == '--out': out = a.pop(0)
+    elif x == '--only': only_re = re.compile(a.pop(0))
 env = dict(os.environ); env['PATH'] = '/opt/veriftools/go1.26.8/bin:' + env['PATH']
 env.update(GOTOOLCHAIN='local', GOPROXY='off', GOSUMDB='off', GOFLAGS='-mod=readonly -trimpath', VERIF_ROOT=root); env.pop('GOWORK', None)
 def reports(patch, prop):
@@ -34,6 +35,7 @@ for prop in sorted(os.listdir(root + '/benign-mixed')):
     for f in sorted(os.listdir(f'{root}/benign-mixed/{prop}')):
         if f.endswith('.diff'):
             sid = f[:-5]
+            if only_re and not only_re.search(sid): continue
             if os.path.exists(f'{root}/seeded/{sid}/patch.diff'): pairs.append((sid, prop))
 def one(p):
     sid, prop = p
